@@ -80,6 +80,8 @@ pub fn encode<W: Write>(ty: Ty, raw: i64, codec: Codec, w: W) -> Encoded {
         Ok(Ok(Ok(()))) => Encoded::Ok,
         Ok(Ok(Err(e))) => Encoded::Err(e),
         Ok(Err(())) => Encoded::NotAValue,
+        // the caller's own writer panicked (injected): for the crate this is a failed write
+        Err(p) if p.is::<crate::disk::InjectedWriterPanic>() => Encoded::Err("the writer panicked (injected)".to_string()),
         Err(_) => Encoded::Panic(last_panic()),
     }
 }
